@@ -38,13 +38,15 @@ class Ctx:
                 raise ReplayOutOfBounds(f'{name}={v} outside [{lo},{hi}]')
         else:
             import z3
-            from crosshair.core import proxy_for_type
+            from crosshair.libimpl.builtinslib import SymbolicInt
             from crosshair.statespace import context_statespace
             from crosshair.tracers import NoTracing
 
-            v = proxy_for_type(int, name)
-            # the bound is asserted into the solver (no branch, no ignored path)
+            # A solver integer made directly (CrossHair's own factory may decide to realise a
+            # value up front, which turns exhaustion into sampling); the bound is asserted into
+            # the solver, so there is no branch and no ignored path.
             with NoTracing():
+                v = SymbolicInt(z3.Int(name))
                 context_statespace().add(z3.And(v.var >= lo, v.var <= hi))
         self.vars[name] = v
         return v
